@@ -1657,6 +1657,13 @@ class LoopExpression(Expression):
                 return reversed(list(it)), length
             return it, length
 
+        # A negative limit selects nothing, a negative offset skips nothing and
+        # an offset beyond the end skips everything.
+        if limit is not None:
+            limit = max(limit, 0)
+        if isinstance(offset, int):
+            offset = min(max(offset, 0), length)
+
         if offset == "continue":
             offset = context.stopindex(key=offset_key)
             length = max(length - offset, 0)
